@@ -370,11 +370,18 @@ func runOneET(c *vh.Ctx, root string, p *proj.Project, v etVariant, vi int, seed
 		petToday                                  float64
 		steps                                     int
 		days, cropDays                            int
+		grwFirst                                  float64 // groundwater level of the first simulated day
+		grwMoved                                  bool    // the level has differed from it since
 	)
 	probes := &hermes.VerifProbes{
 		DayStart: func(g *hermes.GlobalVarsMain, w *hermes.WaterSharedVars, ns *hermes.NitroSharedVars, cs *hermes.CropSharedVars, zeit int, wdt float64) {
 			days++
 			c.Eval()
+			if days == 1 {
+				grwFirst, grwMoved = g.GRW, false
+			} else if g.GRW != grwFirst {
+				grwMoved = true
+			}
 			cropToday = cropActive(g, zeit)
 			veg := "bare"
 			capV := 0.6
@@ -533,7 +540,13 @@ func runOneET(c *vh.Ctx, root string, p *proj.Project, v etVariant, vi int, seed
 				if fcIn := inputFC[i]; fcIn > 0 && float64(i+2) < g.GRW {
 					if up := fcIn + capInc[i]; x > up+1e-9*(1+up) {
 						more["field_capacity_of_soil_file"] = fcIn
-						viol("wg-above-input-capacity:above-groundwater", fmt.Sprintf("layer %d (above the groundwater table at %.3g dm) ends at %.9g above the soil file's field capacity %.9g + capillary increment %.9g (the run uses W = %.9g)", i+1, g.GRW, x, fcIn, capInc[i], g.W[i]), zeit, more)
+						sig := "wg-above-input-capacity:above-groundwater"
+						if !grwMoved && p.Cfg["GroundWaterFrom"] != "soilfile" {
+							// finding F8 (C15): before the first change of a moving table the saturated zone is the work of Input
+							// (level of the first record / the mean) plus Init (level of the start day)
+							sig += ":before-first-groundwater-change"
+						}
+						viol(sig, fmt.Sprintf("layer %d (above the groundwater table at %.3g dm) ends at %.9g above the soil file's field capacity %.9g + capillary increment %.9g (the run uses W = %.9g)", i+1, g.GRW, x, fcIn, capInc[i], g.W[i]), zeit, more)
 					}
 				}
 			}
